@@ -1,4 +1,5 @@
 -- root of the library: every property file (and through them models, lemmas, generated tables)
 import ChmpyVerif.Model.Proto
+import ChmpyVerif.Props.C11
 import ChmpyVerif.Props.C12
 import ChmpyVerif.Props.C17
